@@ -4,6 +4,7 @@ import (
 	"encoding/json"
 	"fmt"
 	"regexp"
+	"seata.apache.org/seata-go/pkg/datasource/sql/types"
 	"sort"
 	"strings"
 	"testing"
@@ -325,6 +326,74 @@ func (r *atRun) checkC09(o *episodeObs) {
 			}
 		}
 		if len(items) == 0 {
+			continue
+		}
+		// a foreign write to a row this branch matched without changing it: the
+		// row is in the client's images (and under its global lock) although the
+		// database recorded no write; whether that is "a row it wrote" is not ours
+		// to say, so the branch is not judged
+		imageKeys := map[string]bool{}
+		for _, fl := range r.flush {
+			if fl.Xid != o.xid || int64(fl.BranchID) != b.ID {
+				continue
+			}
+			for _, it := range fl.Logs {
+				tab := w.Srv.Table(atSchema, it.TableName)
+				if tab == nil {
+					continue
+				}
+				for _, img := range []*types.RecordImage{it.BeforeImage, it.AfterImage} {
+					if img == nil {
+						continue
+					}
+					for _, row := range img.Rows {
+						imageKeys[strings.ToLower(it.TableName)+"|"+imagePK(tab, row)] = true
+					}
+				}
+			}
+		}
+		changedKeys := map[string]bool{}
+		for _, it := range items {
+			for _, wr := range it.rows {
+				tname := wr.Table[strings.LastIndex(wr.Table, ".")+1:]
+				tab := w.Srv.Table(atSchema, tname)
+				row := wr.After
+				if row == nil {
+					row = wr.Before
+				}
+				if tab != nil {
+					changedKeys[strings.ToLower(tname)+"|"+pkTextOfRow(tab, row)] = true
+				}
+			}
+		}
+		foreignSQL := map[string]bool{}
+		for _, st := range o.foreign {
+			foreignSQL[st.SQL] = true
+		}
+		outside := false
+		for k := 0; k < o.jP2-o.jstart && k < len(j); k++ {
+			e := j[k]
+			if !foreignSQL[e.SQL] || e.InTxn {
+				continue
+			}
+			for _, wr := range appWrites(e.Writes) {
+				tname := wr.Table[strings.LastIndex(wr.Table, ".")+1:]
+				tab := w.Srv.Table(atSchema, tname)
+				row := wr.After
+				if row == nil {
+					row = wr.Before
+				}
+				if tab == nil {
+					continue
+				}
+				key := strings.ToLower(tname) + "|" + pkTextOfRow(tab, row)
+				if imageKeys[key] && !changedKeys[key] {
+					outside = true
+				}
+			}
+		}
+		if outside {
+			w.Sim.Probe("c09-foreign-write-to-matched-unchanged-row-unjudged")
 			continue
 		}
 		verdict := "rollbacked"
